@@ -491,6 +491,21 @@ def _type_check_field_existence_condition(field, source_file_name, errors):
     )
 
 
+def _type_check_enum_value(enum_value, source_file_name, errors):
+    # An enum value may be given as an integer or as another (constant) enum
+    # value, such as `ALIAS = ORIGINAL`.
+    if enum_value.value.type.which_type not in ("integer", "enumeration"):
+        errors.append(
+            [
+                error.error(
+                    source_file_name,
+                    enum_value.value.source_location,
+                    "Enum value must be an integer.",
+                )
+            ]
+        )
+
+
 def _type_name_for_error_messages(expression_type):
     if expression_type.which_type == "integer":
         return "integer"
@@ -643,6 +658,12 @@ def check_types(ir):
         ir,
         [ir_data.Field],
         _type_check_field_existence_condition,
+        parameters={"errors": errors},
+    )
+    traverse_ir.fast_traverse_ir_top_down(
+        ir,
+        [ir_data.EnumValue],
+        _type_check_enum_value,
         parameters={"errors": errors},
     )
     traverse_ir.fast_traverse_ir_top_down(
